@@ -303,6 +303,7 @@ func runC15(d *RunDesc, res *RunResult) {
 			var result string
 			switch op.K {
 			case "twin":
+				ctx.tick(op)
 				p, origin, ok := ctx.operand(op)
 				if !ok {
 					result = "skip"
